@@ -2,7 +2,7 @@
 ID = "C07"
 LEVEL = "exploration"
 FUNCTIONS = ['codelimit.common.Codebase:Codebase.add_file', 'codelimit.common.LanguageTotals:LanguageTotals.__init__',
-             'codelimit.common.LanguageTotals:LanguageTotals.add']
+             'codelimit.common.LanguageTotals:LanguageTotals.add', 'codelimit.common.Codebase:Codebase.all_measurements']
 BOUNDED_SKIP = list(FUNCTIONS)   # the harness below drives them through the real Codebase
 TRUSTED = ["json (stdlib)"]
 ASSUMPTIONS = []
@@ -18,7 +18,7 @@ def bounded(tier, seed, fallback_for):
 MANIFEST = {
     "category": "exploration",
     "technique": "contracts on the real functions discharged by z3/cvc5 (pyvc); bounded stand-in with independently recomputed expectations for the whole statement",
-    "text": 'Totals, profiles and the folder tree are recomputed independently for every small set of paths in every insertion order (bounded). Discharged for all inputs: Codebase.add_file keeps the representation invariant, registers the file under its path, creates and updates the totals of its language and lists it under its parent folder; LanguageTotals.__init__/add; the arithmetic of ScanTotals.total_* and make_profile is proved under C02/C18.',
+    "text": 'Totals, profiles and the folder tree are recomputed independently for every small set of paths in every insertion order (bounded). Discharged for all inputs: Codebase.add_file keeps the representation invariant, registers the file under its path, creates and updates the totals of its language and lists it under its parent folder; LanguageTotals.__init__/add; Codebase.all_measurements returns a new list and writes nothing; the arithmetic of ScanTotals.total_* and make_profile is proved under C02/C18.',
     "note": 'bounded for the folder tree (recursive add_folder/aggregate are assumed summaries)',
     "design_ref": "DESIGN.md §6 C07",
 }
